@@ -41,93 +41,182 @@ ASSUMPTIONS = ['every interruption of a waveform is a timed pause(t) with t not 
 
 
 # ---------------------------------------------------------------------------------------------------
+# Optional case keys (defaults reproduce the plain loop):
+#   fill 'append'|'extend'   t0_late / fs_late (set_t0 / set_fs after construction resp. after the sources)
+#   toff  fraction of a sample by which the queue start T0 is off the grid      S  queue clock at start (resume(T0+S/fs))
+#   stims[k]['delays'] = [[d, off], ...]  per-trial delay list (finite iterator)   stims[k]['nodelay'] delays=None
+#   esize None -> epoch_size=None (info['duration'])   pre [m, off]   post_omit   boff   rq False (removed_queue omitted)
+#   sc 0 none / 1 Event set / 2 Event set only before the last send (+ empty_queue_cb)
+#   chunk 'plain'|'pdata'|'2ch'|'pdata2ch'|'int'   intwave   scribble   npint   fsint   late k (stimuli k.. appended at ['append'])
+def _fs(case):
+    return int(case['fs']) if case.get('fsint') else case['fs']
+
+
 def _dur(st, fs):
     return (st['len'] + st.get('off', 0.0)) / fs
 
 
 def _delay(st, fs):
+    if st.get('nodelay'):
+        return None
+    if 'delays' in st:
+        return [(d + o) / fs for d, o in st['delays']]
     return (st['delay'] + st.get('doff', 0.0)) / fs
 
 
-def _source(st, k, fs):
+def _warr(case, k, n):
+    w = qc.wave_array(k, n)
+    return np.floor(w) if case.get('intwave') else w
+
+
+def _source(case, st, k):
     from psiaudio import stim
+    fs = _fs(case)
     n = st['len']
     if st['kind'] == 'array':
-        return qc.wave_array(k, n)
+        return _warr(case, k, n)
     if st['kind'] == 'gen':
-        return stim.FixedWaveform(fs, qc.wave_array(k, n))
+        return stim.FixedWaveform(fs, _warr(case, k, n))
     tone = stim.ToneFactory(fs, fs / 7.0, 1.0 + k)
     return stim.Cos2EnvelopeFactory(fs, _dur(st, fs), (n // 4) / fs, tone)
 
 
-def _wave(st, k, fs):
-    src = _source(st, k, fs)
+def _wave(case, st, k):
+    src = _source(case, st, k)
     if isinstance(src, np.ndarray):
         return src
     return np.asarray(src.next(st['len']), dtype=float)
 
 
-def _queue(case):
-    from psiaudio import queue as Q
-    fs, p = case['fs'], case['pol']
-    if p == 'fifo':
-        q = Q.FIFOSignalQueue(fs=fs)
-    elif p == 'inter_keep':
-        q = Q.InterleavedFIFOSignalQueue(fs=fs, keep_complete_waveforms=True)
-    elif p == 'inter_nokeep':
-        q = Q.InterleavedFIFOSignalQueue(fs=fs, keep_complete_waveforms=False)
-    elif p == 'random':
-        q = Q.RandomSignalQueue(fs=fs)
-    elif p == 'blocked_random':
-        q = Q.BlockedRandomSignalQueue(seed=case.get('seed', 0), fs=fs)
-    elif p == 'grouped':
-        q = Q.GroupedFIFOSignalQueue(group_size=case['gs'], fs=fs)
-    else:
-        q = Q.BlockedFIFOSignalQueue(fs=fs)
-    q.set_t0((case['D'] + case['j']) / fs)
+def _T0(case):
+    return (case['D'] + case['j'] + case.get('toff', 0.0)) / case['fs']
+
+
+def _shift(case):
+    return case['D'] + case.get('S', 0)
+
+
+def _fill(case, q, stims, k0):
+    fs = _fs(case)
     keys = []
-    for k, st in enumerate(case['stims']):
-        kw = {}
+    tr = (lambda t: np.int64(t)) if case.get('npint') else (lambda t: t)
+    if case.get('fill') == 'extend' and k0 == 0:
+        srcs = [_source(case, st, k) for k, st in enumerate(stims)]
+        durs = [_dur(st, fs) if (st['kind'] == 'array' and st.get('explicit')) else None for st in stims]
+        mds = [{'stim': k} for k in range(len(stims))]
+        trials = [tr(st['trials']) for st in stims]
+        delays = [_delay(st, fs) for st in stims]
+        if len(set(map(int, trials))) == 1:
+            trials = trials[0]                      # scalar form of the option
+        if all(d is None for d in delays):
+            delays = None
+        return list(q.extend(srcs, trials, delays, durs if any(d is not None for d in durs) else None, mds))
+    for k, st in enumerate(stims):
+        kw = {'metadata': {'stim': k0 + k}}
         if st['kind'] == 'array' and st.get('explicit'):
             kw['duration'] = _dur(st, fs)
-        keys.append(q.append(_source(st, k, fs), st['trials'], _delay(st, fs), **kw))
+        d = _delay(st, fs)
+        if d is None:
+            keys.append(q.append(_source(case, st, k0 + k), tr(st['trials']), **kw))
+        else:
+            keys.append(q.append(_source(case, st, k0 + k), tr(st['trials']), d, **kw))
+    return keys
+
+
+def _queue(case):
+    from psiaudio import queue as Q
+    fs, p = _fs(case), case['pol']
+    kw = {} if case.get('fs_late') else {'fs': fs}
+    if p == 'fifo':
+        q = Q.FIFOSignalQueue(**kw)
+    elif p == 'inter_keep':
+        q = Q.InterleavedFIFOSignalQueue(**kw)          # keep_complete_waveforms defaults to True
+    elif p == 'inter_nokeep':
+        q = Q.InterleavedFIFOSignalQueue(keep_complete_waveforms=False, **kw)
+    elif p == 'random':
+        q = Q.RandomSignalQueue(**kw)
+    elif p == 'blocked_random':
+        q = Q.BlockedRandomSignalQueue(seed=case.get('seed', 0), **kw)
+    elif p == 'grouped':
+        q = Q.GroupedFIFOSignalQueue(group_size=case['gs'], **kw)
+    else:
+        q = Q.BlockedFIFOSignalQueue(**kw)
+    if case.get('fs_late'):
+        q.set_fs(fs)
+    if not case.get('t0_late'):
+        q.set_t0(_T0(case))
+    late = case.get('late')
+    keys = _fill(case, q, case['stims'][:late] if late else case['stims'], 0)
+    if case.get('t0_late'):
+        q.set_t0(_T0(case))
+    if case.get('S'):
+        q.resume(_T0(case) + case['S'] / case['fs'])
     return q, keys
 
 
 def _t(case, x):
     """the time in seconds handed to pause()/resume() for the step argument x = [samples after queue start, offset]"""
-    fs = case['fs']
-    return (case['D'] + case['j']) / fs + (x[0] + x[1]) / fs
+    return _T0(case) + (case.get('S', 0) + x[0] + x[1]) / case['fs']
 
 
 def _eff(case, x):
-    """acquisition-relative sample (minus D) the queue derives from that time: j + round((t - T0)*fs)"""
+    """device-relative sample the queue derives from that time: j + round((t - T0)*fs) - S"""
     fs = case['fs']
-    T0 = (case['D'] + case['j']) / fs
-    return case['j'] + int(round((_t(case, x) - T0) * fs))
+    return case['j'] + int(round((_t(case, x) - _T0(case)) * fs)) - case.get('S', 0)
 
 
 def _times(case):
     fs = case['fs']
-    esize = (case['esize'][0] + case['esize'][1]) / fs
-    post = (case['post'][0] + case['post'][1]) / fs
-    n = round((esize + post + 0) * fs)          # pipeline.py: round(total_epoch_size * fs)
-    B = round((case['B'] / fs) * fs)            # pipeline.py: round(buffer_size * fs)
+    if case['esize'] is None:
+        st = case['stims'][0]
+        esize = _dur(st, fs) if (st['kind'] == 'cos2' or st.get('explicit')) else st['len'] / fs
+    else:
+        esize = (case['esize'][0] + case['esize'][1]) / fs
+    post = 0 if case.get('post_omit') else (case['post'][0] + case['post'][1]) / fs
+    pre = (case['pre'][0] + case['pre'][1]) / fs if case.get('pre') else 0
+    n = round((esize + post + pre) * fs)                            # pipeline.py: round(total_epoch_size * fs)
+    B = round(((case['B'] + case.get('boff', 0.0)) / fs) * fs)      # pipeline.py: round(buffer_size * fs)
     return esize, post, int(n), int(B)
 
 
+def _pre(case):
+    """(prestim_time in seconds, the whole samples it amounts to in round((t0 - prestim)*fs))"""
+    if not case.get('pre'):
+        return 0, 0
+    fs = case['fs']
+    pre = (case['pre'][0] + case['pre'][1]) / fs
+    t0 = (_shift(case) + case['j'] + 50) / fs
+    return pre, int(round(t0 * fs)) - int(round((t0 - pre) * fs))
+
+
+def _mkchunk(case, data, s0):
+    from psiaudio.pipeline import PipelineData
+    kind = case.get('chunk', 'plain')
+    if kind == 'int':
+        data = data.astype(np.int64)
+    if kind in ('2ch', 'pdata2ch'):
+        data = np.stack([data, data])
+    if kind.startswith('pdata'):
+        data = PipelineData(data, fs=case['fs'], s0=s0, channel=(['a', 'b'] if kind == 'pdata2ch' else None),
+                            metadata={'src': 'acq'})
+    return data
+
+
 def impl(case):
+    import logging
     from collections import deque
-    from psiaudio.pipeline import extract_epochs
-    fs, D, j = case['fs'], case['D'], case['j']
+    from threading import Event
+    from psiaudio.pipeline import extract_epochs, PipelineData
+    logging.getLogger('psiaudio.pipeline').setLevel(logging.ERROR)
+    fs, j, SH, S = case['fs'], case['j'], _shift(case), case.get('S', 0)
     if case['pol'] == 'random':
         np.random.seed(case.get('seed', 0))
     q, keys = _queue(case)
     kidx = {k: i for i, k in enumerate(keys)}
-    added, removed, notes = deque(), deque(), []
+    added, removed, notes, fired = deque(), deque(), [], []
 
     def clock():
-        return j + int(round(q.get_ts() * fs))
+        return j + int(round(q.get_ts() * fs)) - S
 
     def on_added(info):
         added.append(info)
@@ -139,28 +228,56 @@ def impl(case):
     q.connect(on_added, 'added')
     q.connect(on_removed, 'removed')
     esize, post, n, B = _times(case)
-    got = []
-    ex = extract_epochs(fs=fs, queue=added, removed_queue=removed, epoch_size=esize, poststim_time=post,
-                        buffer_size=case['B'] / fs, target=got.append)
-    if D:
-        ex.send(np.zeros(D))                    # the acquisition ran for D samples before the queue was started
-    P = np.zeros(0)                             # the device buffer, position 0 = acquisition sample D
+    pre, _ = _pre(case)
+    got, sends = [], []
+    kw = {}
+    if case.get('rq', True):
+        kw['removed_queue'] = removed
+    if not case.get('post_omit'):
+        kw['poststim_time'] = post
+    if case.get('pre'):
+        kw['prestim_time'] = pre
+    ev = None
+    if case.get('sc'):
+        ev = Event()
+        if case['sc'] == 1:
+            ev.set()
+        kw['source_complete'] = ev
+        kw['empty_queue_cb'] = lambda: fired.append(len(sends))
+    ex = extract_epochs(fs=_fs(case), queue=added, epoch_size=(None if case['esize'] is None else esize),
+                        buffer_size=(case['B'] + case.get('boff', 0.0)) / fs, target=got.append, **kw)
+    pos = 0
+    while pos < SH:                             # the acquisition ran for D (+S) samples before the queue got here
+        m = min(1 << 20, SH - pos)
+        ex.send(_mkchunk(case, np.zeros(m), pos))
+        pos += m
+    del got[:]
+    P = np.zeros(0)                             # the device buffer, position 0 = acquisition sample D (+S)
     acq = 0
-    sends, conv, marks = [], [], []
-    for s in case['steps']:
-        if s[0] == 'pop':
+    conv, extra = [], []
+    last_acq = max([i for i, s in enumerate(case['steps']) if s[0] == 'acq'], default=-1)
+    for si, s in enumerate(case['steps']):
+        if s[0] in ('pop', 'popdry'):
             c = clock()
-            w = np.asarray(q.pop_buffer(s[1]), dtype=float)
+            k = s[1] + (s[2] if s[0] == 'popdry' else 0)
+            w = q.pop_buffer(np.int64(k) if case.get('npint') else k)
+            wf = np.asarray(w, dtype=float)
             if c > len(P):
                 P = np.concatenate([P, np.zeros(c - len(P))])
-            P = np.concatenate([P[:c], w, P[c + len(w):]])
+            P = np.concatenate([P[:c], wf, P[c + len(wf):]])
+            if case.get('scribble'):
+                w[...] = -777.0                 # the caller owns what pop_buffer returned
+        elif s[0] == 'append':
+            new = _fill(case, q, case['stims'][case['late']:], case['late'])
+            for k in new:
+                kidx[k] = len(kidx)
         elif s[0] == 'pause':
             if s[1] is None:
                 q.pause()
             else:
                 t = _t(case, s[1])
                 q.pause(t)
-                cut = int(round(t * fs)) - D
+                cut = (int(round(t * fs)) - SH) if not case.get('toff') else clock()
                 conv.append(['pause', cut, clock()])
                 P = P[:max(cut, 0)]
         elif s[0] == 'resume':
@@ -169,7 +286,8 @@ def impl(case):
             else:
                 t = _t(case, s[1])
                 q.resume(t)
-                conv.append(['resume', int(round(t * fs)) - D, clock()])
+                if not case.get('toff'):
+                    conv.append(['resume', int(round(t * fs)) - SH, clock()])
         else:
             m = s[1]
             chunk = P[acq:acq + m]
@@ -177,14 +295,41 @@ def impl(case):
                 return {'bad_schedule': f'acquisition of [{acq},{acq + m}) but only {len(P)} samples were generated'}
             del got[:]
             notes.append(['send', len(sends)])
+            if ev is not None and case['sc'] == 2 and si == last_acq:
+                ev.set()
+            data = _mkchunk(case, chunk.copy(), SH + acq)
             try:
-                ex.send(chunk.copy())
-                sends.append([[float(v) for v in e] for blk in got for e in np.asarray(blk)])
+                ex.send(data)
             except ValueError as e:
                 sends.append({'raised': 'ValueError', 'message': str(e)[:120]})
                 break
+            if case.get('scribble'):
+                # the driver's chunk is its own again after the send; a driver that hands out views of one ring
+                # buffer is a different contract (see extract_epochs' prior_samples) and is not exercised
+                pass
+            rows = []
+            for blk in got:
+                a = np.asarray(blk)
+                for r in range(a.shape[0]):
+                    row = a[r] if a.ndim == 2 else a[r, 0]
+                    rows.append([float(v) for v in row])
+                    if a.ndim == 3 and a.shape[1] == 2 and not np.array_equal(a[r, 0], a[r, 1]):
+                        extra.append('channel 1 of a delivered epoch differs from channel 0')
+                    if a.ndim == 3 and a.shape[1] != (2 if '2ch' in case.get('chunk', '') else 1):
+                        extra.append(f'epoch with {a.shape[1]} channels')
+                if case.get('chunk') == 'int' and not np.issubdtype(a.dtype, np.integer):
+                    extra.append(f'integer acquisition delivered as {a.dtype}')
+                if isinstance(blk, PipelineData):
+                    extra.append(['pd', len(sends), int(blk.s0) - SH, [m.get('stim') for m in blk.metadata],
+                                  float(blk.fs)])
+                elif case.get('chunk', 'plain').startswith('pdata'):
+                    extra.append('PipelineData acquisition delivered as a plain array')
+            if len(got) > 1:
+                extra.append('target called more than once in one send')
+            sends.append(rows)
             acq += m
-    return {'P': [float(v) for v in P], 'notes': notes, 'sends': sends, 'conv': conv, 'acq': acq}
+    return {'P': [float(v) for v in P], 'notes': notes, 'sends': sends, 'conv': conv, 'acq': acq, 'extra': extra,
+            'fired': fired, 'empty': bool(q.is_empty()), 'ts': clock()}
 
 
 # ---------------------------------------------------------------------------------------------------
@@ -195,6 +340,11 @@ def _pol(case):
             'blocked_fifo': f'(PGrouped {n})'}[case['pol']]
 
 
+def _theorem_case(case):
+    """is the case inside what C06_end_to_end quantifies over (else only the correspondence and the oracle speak)"""
+    return not (case.get('pre') or any('delays' in st for st in case['stims']))
+
+
 def expr(case, res):
     if 'bad_schedule' in res:
         raise RuntimeError(res['bad_schedule'])
@@ -202,22 +352,36 @@ def expr(case, res):
     es = []
     for st in case['stims']:
         ln = st['len'] if st['kind'] != 'cos2' else int(round(_dur(st, fs) * fs))
-        d = int(round(_delay(st, fs) * fs))
-        es.append(f"(mk_entry {zlit(st['trials'])} {zlit(ln)} {'KArray' if st['kind'] == 'array' else 'KGen'} {zlist([d])} true)")
+        if st.get('nodelay'):
+            d, cyc = [0], True
+        elif 'delays' in st:
+            d, cyc = [int(round(((a + o) / fs) * fs)) for a, o in st['delays']], False
+        else:
+            d, cyc = [int(round(_delay(st, fs) * fs))], True
+        es.append(f"(mk_entry {zlit(st['trials'])} {zlit(ln)} {'KArray' if st['kind'] == 'array' else 'KGen'} {zlist(d)} "
+                  f"{'true' if cyc else 'false'})")
     choices = [e[1] for e in res['notes'] if e[0] == 'added'] if case['pol'] == 'random' else []
     perms = qc.blocked_perms(case.get('seed', 0), len(case['stims'])) if case['pol'] == 'blocked_random' else []
     steps = [f"SQ (Resume (Some {zlit(case['j'])}))"]
     for s in case['steps']:
         if s[0] == 'pop':
             steps.append(f'SQ (Pop {zlit(s[1])})')
+        elif s[0] == 'popdry':
+            # the early stimuli are exhausted after s[1] samples; the rest of the request is the silence of an empty
+            # queue, which the model (all stimuli present from the start) generates as a pause without a time
+            steps += [f'SQ (Pop {zlit(s[1])})', 'SQ (Pause None)', f'SQ (Pop {zlit(s[2])})', 'SQ (Resume None)']
+        elif s[0] == 'append':
+            pass
         elif s[0] == 'acq':
             steps.append(f'SA {zlit(s[1])}')
         else:
             a = 'None' if s[1] is None else f'(Some {zlit(_eff(case, s[1]))})'
             steps.append(f"SQ ({'Pause' if s[0] == 'pause' else 'Resume'} {a})")
     _, _, n, B = _times(case)
-    return (f"c06_run {_pol(case)} {listlit(es)} {zlist(choices)} {listlit([zlist(p) for p in perms])} "
-            f"{zlit(B)} {zlit(n)} 0 {listlit(steps)}")
+    kind = case.get('chunk', 'plain')
+    return (f"c06_runk {'true' if kind.startswith('pdata') else 'false'} {'true' if '2ch' in kind else 'false'} "
+            f"{_pol(case)} {listlit(es)} {zlist(choices)} {listlit([zlist(p) for p in perms])} "
+            f"{zlit(B)} {zlit(n)} {zlit(_pre(case)[1])} {listlit(steps)}")
 
 
 def _decode(mo):
@@ -253,7 +417,7 @@ def _decode(mo):
 
 
 def _waves(case):
-    return [_wave(st, k, case['fs']) for k, st in enumerate(case['stims'])]
+    return [_wave(case, st, k) for k, st in enumerate(case['stims'])]
 
 
 def _sample(waves, code):
@@ -282,7 +446,7 @@ def agree(case, res, mo):
         return f'cannot decode model output ({e})'
     if d.get('raised'):
         return 'model: the queue raises on this history'
-    if not d['wf']:
+    if not d['wf'] and _theorem_case(case):
         return 'the schedule is outside the ones the theorem covers (wf_steps false): generator bug'
     waves = _waves(case)
     fs = case['fs']
@@ -295,11 +459,12 @@ def agree(case, res, mo):
     live = _live(res)
     if live is None:
         return 'a removed notification names a trial that is not outstanding'
-    got_live = [(k, int(round(t0 * fs)) - case['D']) for k, t0 in live]
+    got_live = [(k, int(round(t0 * fs)) - _shift(case)) for k, t0 in live]
     if got_live != d['live']:
         return f'kept trials {got_live} vs model {d["live"]}'
     if len(res['sends']) != len(d['sends']):
         return f'{len(res["sends"])} sends vs model {len(d["sends"])}'
+    pds = {x[1]: x for x in res['extra'] if isinstance(x, list)}
     for i, (a, b) in enumerate(zip(res['sends'], d['sends'])):
         if isinstance(a, dict) or isinstance(b, dict):
             if isinstance(a, dict) != isinstance(b, dict):
@@ -313,7 +478,11 @@ def agree(case, res, mo):
             w = [_sample(waves, c) for c in it['data']]
             if e != w:
                 return f'send {i}: epoch of stimulus {it["k"]} at sample {it["s0"]} is {e[:8]}..., model {w[:8]}...'
-    case['_fits'] = bool(d['fits'])
+        if b and i in pds:
+            if pds[i][2] != b[0]['s0']:
+                return f'send {i}: delivered PipelineData has s0 {pds[i][2]}, model {b[0]["s0"]}'
+            if pds[i][3] != [it['k'] for it in b]:
+                return f'send {i}: epochs carry the metadata of stimuli {pds[i][3]}, model {[it["k"] for it in b]}'
     return None
 
 
@@ -329,9 +498,10 @@ def oracle(case, res):
     """C06 on the implementation alone."""
     if 'bad_schedule' in res:
         return None
-    fs, D = case['fs'], case['D']
+    fs, D = case['fs'], _shift(case)
     waves = _waves(case)
     _, _, n, _ = _times(case)
+    _, pre_n = _pre(case)
     # the two sides convert seconds <-> samples identically
     for e in res['notes']:
         if e[0] == 'added' and int(round(e[2] * fs)) - D != e[3]:
@@ -343,8 +513,13 @@ def oracle(case, res):
     if any(isinstance(s, dict) for s in res['sends']):
         bad = [s for s in res['sends'] if isinstance(s, dict)][0]
         return f'extractor.send raised {bad["raised"]}: {bad["message"]}'
+    for x in res.get('extra', []):
+        if isinstance(x, str):
+            return x
+        if x[4] != fs:
+            return f'delivered epochs have fs {x[4]}'
     # which trials were kept, in order; which notifications each send had seen
-    live, seen = [], 0
+    live = []
     per_send = []
     allnotes = res['notes']
     for e in allnotes:
@@ -361,22 +536,37 @@ def oracle(case, res):
     last = per_send[-1] if per_send else []
     exp = []
     for k, t0 in last:
-        lo = int(round(t0 * fs)) - D
+        lo = int(round((t0 - _pre(case)[0]) * fs)) - D
         if lo + n <= res['acq']:
-            exp.append((k, lo))
+            exp.append((k, lo, int(round(t0 * fs)) - D))
     if len(delivered) != len(exp):
         return f'{len(delivered)} epochs delivered, but {len(exp)} kept trials have their window inside the acquired stream'
     added = [(e[1], int(round(e[2] * fs)) - D) for e in allnotes if e[0] == 'added']
-    for ep, (k, lo) in zip(delivered, exp):
+    for ep, (k, lo, ts) in zip(delivered, exp):
         w = waves[k]
         if len(ep) != n:
             return f'epoch of {len(ep)} samples, expected {n}'
-        if ep[:len(w)] != [float(v) for v in w]:
-            i = next(i for i, (a, b) in enumerate(zip(ep, w)) if a != b)
-            return f'epoch for stimulus {k} at sample {lo + D}: sample {i} is {ep[i]!r}, the waveform has {float(w[i])!r}'
-        fits = all((t + len(waves[kk]) <= lo + len(w)) or (lo + n <= t) for kk, t in added)
-        if fits and any(v != 0.0 for v in ep[len(w):]):
-            return f'epoch for stimulus {k} at sample {lo + D}: post-stimulus part is not silent'
+        if ts - lo != pre_n:
+            return f'epoch for stimulus {k} starts {ts - lo} samples before the trial, prestim_time is {pre_n} samples'
+        if pre_n and ep[:pre_n] != res['P'][lo:lo + pre_n]:
+            return f'epoch for stimulus {k} at sample {ts + D}: pre-stimulus part is not what was played before the trial'
+        body = ep[pre_n:pre_n + len(w)]
+        if body != [float(v) for v in w]:
+            i = next(i for i, (a, b) in enumerate(zip(body, w)) if a != b)
+            return f'epoch for stimulus {k} at sample {ts + D}: sample {i} is {body[i]!r}, the waveform has {float(w[i])!r}'
+        fits = all((t + len(waves[kk]) <= ts + len(w)) or (lo + n <= t) for kk, t in added)
+        if fits and any(v != 0.0 for v in ep[pre_n + len(w):]):
+            return f'epoch for stimulus {k} at sample {ts + D}: post-stimulus part is not silent'
+    pds = [x for x in res.get('extra', []) if isinstance(x, list)]
+    flat = [k for x in pds for k in x[3]]
+    if pds and flat != [k for k, _, _ in exp]:
+        return f'epochs carry the metadata of stimuli {flat}, the kept trials are {[k for k, _, _ in exp]}'
+    if case.get('sc'):
+        if len(res['fired']) > 1:
+            return 'empty_queue_cb called more than once'
+        nsend = len(res['sends'])
+        if case['sc'] == 2 and res['fired'] and res['fired'][0] < nsend - 1:
+            return 'empty_queue_cb called before source_complete was set'
     return None
 
 
@@ -590,3 +780,230 @@ def cases(tier, rng):
             steps.append(['resume', [max(paused, clock - j), 0.0]])
             clock = j + max(paused, clock - j)
         yield dict(c, steps=_finish(steps, clock, plen, acq, total, rng, mode=rng.choice(['ragged', 'one', 'ones'])))
+
+    # (4) coverage audit: options of the queue, of the extractor and of the acquisition driver
+    yield from _audit_cases(quick, rng)
+
+
+def _fifo_timeline(case):
+    """(stimulus, start, len, delay) of every trial of a FIFO queue that is never paused; device samples"""
+    fs, out, c = case['fs'], [], case['j']
+    for k, st in enumerate(case['stims']):
+        for i in range(st['trials']):
+            if st.get('nodelay'):
+                d = 0
+            elif 'delays' in st:
+                d = int(round(((st['delays'][i][0] + st['delays'][i][1]) / fs) * fs))
+            else:
+                d = int(round(_delay(st, fs) * fs))
+            out.append((k, c, st['len'], d))
+            c += st['len'] + d
+    return out, c
+
+
+def _opt_case(rng, quick, pol, fs, same=False, kinds=('array', 'gen', 'cos2'), pre=None, nst=None):
+    nst = nst or rng.randint(1, 3)
+    st = _stims(rng, fs, nst, kinds=kinds)
+    if same:                                    # one epoch length when epoch_size=None: same duration everywhere
+        for x in st[1:]:
+            x.update(len=st[0]['len'], off=st[0]['off'] if st[0]['kind'] == 'cos2' or st[0].get('explicit') else 0.0)
+            if x['kind'] == 'cos2' and x['len'] < 4:
+                x['kind'] = 'gen'
+            if st[0]['kind'] == 'cos2' or st[0].get('explicit'):
+                x['off'] = st[0]['off']
+                if x['kind'] == 'array':
+                    x['explicit'] = True
+                elif x['kind'] == 'gen':
+                    x['kind'], x['explicit'] = 'array', True
+            else:
+                if x['kind'] == 'cos2':
+                    x['kind'] = 'gen'
+                x['explicit'], x['off'] = False, 0.0
+        if st[0]['kind'] == 'gen' or (st[0]['kind'] == 'array' and not st[0].get('explicit')):
+            st[0]['off'] = 0.0
+    c = _base(rng, pol, fs, st, rng.randint(0, 5), quick)
+    if pre is not None:
+        c['pre'] = pre
+        c['_n'] += pre[0]
+        c['j'] = pre[0] + rng.choice([0, 1, 5])
+    if same:
+        c['esize'] = None
+        c['post'] = [c['_n'] - st[0]['len'] - (pre[0] if pre else 0), rng.choice(OFFS[:5])]
+    c = _fix_n(c)
+    n = _times(c)[2] - (pre[0] if pre else 0)
+    _fit_delays(st, n, rng)
+    return c, st, n
+
+
+def _fix_n(c):          # (redefined: also for epoch_size=None and prestim)
+    n = c.pop('_n')
+    for _ in range(8):
+        got = _times(c)[2]
+        if got == n:
+            return c
+        c['post'] = [c['post'][0] + (n - got), 0.0]
+    if c['esize'] is not None:
+        c['esize'] = [c['esize'][0], 0.0]
+    c['post'] = [c['post'][0], 0.0]
+    return c
+
+
+def _audit_cases(quick, rng):
+    INT_FS = [25e3, 44.1e3]
+    # (4a) option matrix on runs without pause
+    flags = [dict(fill='extend'), dict(t0_late=True), dict(fs_late=True), dict(toff=0.3), dict(toff=-0.4),
+             dict(post_omit=True), dict(boff=0.45, B=3), dict(rq=False), dict(sc=1), dict(sc=2), dict(chunk='pdata'),
+             dict(chunk='2ch'), dict(chunk='pdata2ch'), dict(chunk='int', intwave=True), dict(scribble=True),
+             dict(npint=True), dict(fsint=True), dict(dlist=True), dict(nodelay=True), dict(esnone=True),
+             dict(fill='extend', dlist=True, chunk='pdata', t0_late=True, toff=0.12),
+             dict(fill='extend', esnone=True, chunk='pdata2ch', sc=2, npint=True),
+             dict(fs_late=True, fsint=True, chunk='int', intwave=True, rq=False, post_omit=True)]
+    for fl in flags:
+        for pol in (qc.POLICIES if not quick else rng.sample(qc.POLICIES, 4)):
+            f2 = dict(fl)
+            fs = rng.choice(INT_FS) if f2.get('fsint') else rng.choice(FS)
+            kinds = ('array', 'gen') if f2.get('intwave') else ('array', 'gen', 'cos2')
+            c, st, n = _opt_case(rng, quick, pol, fs, same=bool(f2.pop('esnone', False)), kinds=kinds)
+            if f2.pop('dlist', False):
+                for x in st:
+                    x['delays'] = [[x['delay'] + rng.choice([0, 1, 3]), rng.choice(OFFS)] for _ in range(x['trials'] + 1)]
+                    if x['delays'][0][0] == 0:
+                        x['delays'][0][1] = abs(x['delays'][0][1])
+            if f2.pop('nodelay', False):
+                for x in st:
+                    x['nodelay'] = True
+            if 'B' in f2:
+                c['B'] = f2.pop('B')
+            if f2.get('post_omit'):
+                c['post'] = [0, 0.0]
+                if c['esize'] is not None:
+                    c['esize'] = [n, c['esize'][1] if abs(c['esize'][1]) < 0.45 else 0.0]
+            c.update(f2)
+            n = _times(c)[2]
+            if any(x['len'] > n for x in st):
+                continue
+            total = sum(x['trials'] * (x['len'] + max([x.get('delay', 0)] + [d for d, _ in x.get('delays', [])]) + 1)
+                        for x in st) * len(st) + n + 6
+            gm, am = rng.choice(['one', 'ones', 'ragged']), rng.choice(['one', 'ones', 'ragged', 'marks', 'zeros'])
+            steps = [['pop', k] for k in _chunks(total, gm, rng)]
+            tl, _ = _fifo_timeline(c)
+            marks = sorted(set([a for _, a, _, _ in tl] + [a + ln for _, a, ln, _ in tl] + [a + n for _, a, _, _ in tl]))
+            end = c['j'] + total
+            if am == 'zeros':
+                for k in _chunks(end, 'ragged', rng):
+                    steps += [['acq', 0], ['acq', k]]
+                steps.append(['acq', 0])
+            else:
+                for k in _chunks(end, am, rng, marks):
+                    steps.append(['acq', k])
+            yield dict(c, steps=steps)
+    # (4b) prestim_time != 0, on and off the grid; with and without pauses; with and without look-back
+    for pre in ([2, 0.0], [3, 0.3], [1, -0.4], [4, 0.45]):
+        for pol in (qc.POLICIES if not quick else rng.sample(qc.POLICIES, 3)):
+            for mode in ('lag', 'buffered', 'pause'):
+                fs = rng.choice(FS)
+                c, st, n = _opt_case(rng, quick, pol, fs, pre=pre, same=rng.random() < 0.25)
+                c['chunk'] = rng.choice(['plain', 'plain', 'pdata', '2ch'])
+                for x in st:                      # keep the pre-stimulus window of the next trial out of this one's epoch
+                    x['delay'] += pre[0]
+                total = _total(st, n + pre[0]) + 4
+                j = c['j']
+                if mode == 'lag':
+                    c['B'] = 0
+                    steps = [['pop', k] for k in _chunks(total, 'ragged', rng)] + \
+                            [['acq', k] for k in _chunks(j + total, rng.choice(['ragged', 'ones', 'one']), rng)]
+                elif mode == 'buffered':
+                    c['B'], c['boff'] = pre[0] + 1, rng.choice([0.0, 0.3])
+                    steps, clock, acq = [], j, 0
+                    while clock < j + total:
+                        k = min(rng.choice([1, 4, 9, 30]), j + total - clock)
+                        steps.append(['pop', k])
+                        clock += k
+                        m = rng.randint(0, clock - acq)
+                        steps.append(['acq', m])
+                        acq += m
+                    steps.append(['acq', clock - acq])
+                else:
+                    c['B'] = rng.choice([0, pre[0] + 2])
+                    a = 2 * (n + pre[0]) + 3
+                    t = rng.randint(1, a)
+                    acq = j + t - rng.choice([0, 3]) if c['B'] else max(0, j + min(t, 1) - 1)
+                    acq = max(0, min(acq, j + t))
+                    steps = [['pop', a]] + ([['acq', acq]] if acq else []) + \
+                            [['pause', [t, rng.choice([0.0, 0.3, -0.27])]], ['pop', 2],
+                             ['resume', [t + rng.choice([0, n + pre[0] + 2]), 0.0]]]
+                    if steps[-3][1][0] == a and steps[-3][1][1] > 0:
+                        steps[-3][1][1] = 0.0
+                    clock = j + steps[-1][1][0]
+                    steps = _finish(steps, clock, j + t + 2, acq, total, rng)
+                yield dict(c, steps=steps)
+    # (4c) FIFO: the queue runs dry (inside one request), more stimuli are appended later
+    for _ in range(14 if quick else 120):
+        fs = rng.choice(FS)
+        c, st, n = _opt_case(rng, quick, 'fifo', fs, nst=rng.randint(2, 3))
+        c['late'] = rng.randint(1, len(st) - 1)
+        c['chunk'] = rng.choice(['plain', 'pdata'])
+        early = dict(c, stims=st[:c['late']])
+        _, X = _fifo_timeline(early)
+        X -= c['j']
+        a = rng.randint(0, X - 1)
+        e1, e2 = rng.randint(1, 9), rng.randint(0, 6)
+        steps = ([['pop', a]] if a else []) + [['popdry', X - a, e1]]
+        acq = rng.randint(0, c['j'] + X + e1)
+        steps += [['acq', acq]] + ([['popdry', 0, e2]] if e2 else []) + [['append']]
+        clock = c['j'] + X + e1 + e2
+        yield dict(c, steps=_finish(steps, clock, clock, acq, _total(st[c['late']:], n), rng))
+    # (4d) pause / resume against the acquisition position; several pauses between two sends
+    for _ in range(60 if quick else 600):
+        fs = rng.choice(FS)
+        c, st, n = _opt_case(rng, quick, rng.choice(qc.POLICIES), fs)
+        c['chunk'] = rng.choice(['plain', 'plain', 'pdata', 'int']) if all(x['kind'] != 'cos2' for x in st) else 'plain'
+        c['intwave'] = c['chunk'] == 'int'
+        j, total = c['j'], _total(st, n)
+        a = rng.randint(n + 2, 3 * n + 6)
+        t = rng.randint(1, a)
+        acq = j + t - rng.choice([0, 0, 1, 5])          # acquisition exactly at / just below the pause point
+        acq = max(acq, 0)
+        steps = [['pop', a], ['acq', acq], ['pause', [t, 0.3 if t < a else 0.0]]]
+        var = rng.choice(['zeros_eq', 'zeros_gt', 'repause', 'three', 'acq0'])
+        clock, plen = j + t, j + t
+        if var in ('zeros_eq', 'zeros_gt'):             # the paused silence is played; resume at / after what was acquired
+            z = rng.randint(1, 7)
+            steps += [['pop', z], ['acq', j + t + z - acq]]
+            acq = j + t + z
+            x = t + z + (0 if var == 'zeros_eq' else rng.randint(1, n + 3))
+            steps.append(['resume', [x, 0.0]])
+            clock, plen = j + x, acq
+        elif var == 'repause':                          # a second, earlier pause while paused
+            t2 = rng.randint(max(acq - j, 0), t)
+            steps += [['pause', [t2, 0.0]], ['acq', 0], ['resume', [t2 + rng.choice([0, 2]), 0.0]]]
+            clock, plen = j + steps[-1][1][0], j + t2
+        elif var == 'three':                            # three pause/resume pairs before the next send
+            for _ in range(3):
+                steps.append(['resume', [clock - j, 0.0]])
+                k = rng.randint(1, n + 4)
+                steps.append(['pop', k])
+                clock += k
+                t2 = rng.randint(max(acq, clock - k - 2, j), clock) - j
+                steps.append(['pause', [t2, 0.0]])
+                clock = plen = j + t2
+            steps.append(['resume', [clock - j + rng.choice([0, 1]), 0.0]])
+            clock = j + steps[-1][1][0]
+        else:
+            steps += [['acq', 0], ['resume', None]]
+        yield dict(c, steps=_finish(steps, clock, plen, acq, total, rng))
+    # (4e) long runs: acquisition sample and queue clock beyond 2^24 (and 2^25)
+    for fs in [195312.5, 1000 / 7.0, 97656.25, 44.1e3]:
+        for D, S in ([(1 << 24) + 12345, 0], [5, (1 << 24) + 77], [(1 << 24) + 3, (1 << 24) + 4321]):
+            for _ in range(1 if quick else 4):
+                c, st, n = _opt_case(rng, quick, rng.choice(qc.POLICIES), fs)
+                c['D'], c['S'] = D, S
+                j, total = c['j'], _total(st, n)
+                a = rng.randint(n + 2, 3 * n + 6)
+                t = rng.randint(1, a)
+                steps = [['pop', a], ['acq', j + t], ['pause', [t, rng.choice([0.0, 0.3, -0.4]) if 0 < t < a else 0.0]],
+                         ['pop', 3], ['resume', [t + rng.choice([0, n + 2]), 0.0]]]
+                if steps[2][1][1] < 0:
+                    steps[1] = ['acq', j + t - 1]
+                acq = steps[1][1]
+                yield dict(c, steps=_finish(steps, j + steps[-1][1][0], j + t + 3, acq, total, rng))
